@@ -473,7 +473,15 @@ def r18_7(run):
     run.ob('R18.7', de, de.node, 'falls off without an endpoint', g.exit_fall not in g.live, slot='default-endpoint-falls-off', message='_default_socks_endpoint can end without returning the endpoint')
 
 
+def r18_8(run):
+    """re-listing "exactly as Tor reported it" includes lines that need quoting (a unix listener with a quoted path): the SETCONF
+    quoting discipline of C12 (R12.1), shared"""
+    from . import c12
+    borrow(run, c12.r12_1, 'R18.8')
+
+
 RULES = [
+    ('R18.8', 'the re-issued lines are quoted correctly on the wire (R12.1 borrowed)', r18_8),
     ('R18.7', 'who-may-choose: Tor._socks_endpoint is assigned only from _create_socks_endpoint', r18_7),
     ('R18.6', 'no dropped Deferred in the SOCKS selection coroutines (the SETCONF adding a port is awaited before the endpoint is returned)', r18_6),
     ('R18.1', 'integrity flow: values paired with SOCKSPort in the SETCONF reach it from the GETCONF answer through identity-preserving operations only, plus the new entry', r18_1),
